@@ -46,6 +46,8 @@ def check(prog, run):
     cursor_chain_rule(prog, run, "R10")
     run.rule("R14", "AV1 OBU header parsing == AV1 5.3.1/5.3.2 for all 256 header bytes (type, extension, payload offset and size; forbidden bit refused)")
     obu_header_rule(prog, run, "R14")
+    run.rule("R17", "avcC / hvcC (progressive and fragmented) carry the stored parameter sets verbatim: each NAL blob of the record is the configuration's sps / pps / vps field itself, in that order, with no transformation on the way out")
+    paramsets_written_verbatim(prog, run, "R17")
     run.rule("R15", "the AV1 sequence header is found wherever it stands among the OBUs of a temporal unit, and only it is parsed (tabulated over leading OBU sequences)")
     av1_seq_position_rule(prog, run, "R15")
     run.rule("R16", "AV1 leb128() (OBU sizes): value and length as in AV1 4.10.5 for all tabulated byte strings, zero-padded encodings accepted")
@@ -884,6 +886,7 @@ def av1_seq_position_rule(prog, run, rule):
         prefixes.append(((a, False), (b, False)))
     n = 0
     bad = None
+    bad2 = None
     try:
         for pre in prefixes:
             for with_seq in (True, False):
@@ -917,14 +920,100 @@ def av1_seq_position_rule(prog, run, rule):
                         ok = r.variant == 0 and not seen
                     if not ok and bad is None:
                         bad = ([("%d%s" % (t, "+ext" if e else "")) for (t, pl), e in pre], with_seq, r.variant, [([x[0].known.get(i_) for i_ in range(6)] if isinstance(x[0], E.Bytes) else x[0], x[1]) for x in seen])
+            # two sequence headers in one unit: the first one is the stream's configuration.  If it parses, it is the one stored; if the
+            # parser refuses it, the unit is refused (None) - a later header must not silently stand in for a malformed first one.
+            for first_parses in (True, False):
+                data = []
+                for (t, pl), e in pre:
+                    data += obu(t, pl, e)
+                first = obu(1, seq_payload)
+                data += first + obu(1, [0x1A, 0x1B, 0x1C, 0x1D]) + obu(6, [0x33, 0x44, 0x55, 0x66])
+                seen = []
+
+                def rec2(m_, args, depth, seen=seen, first_parses=first_parses):
+                    seen.append(args)
+                    if len(seen) == 1 and not first_parses:
+                        return E.none()
+                    return E.some(E.Adt("Av1Config", 0, [len(seen)], ["marker"]))
+                m = E.Machine(u, models={"codec::av1::parse_sequence_header": rec2})
+                m.lenient = True
+                r = m.call_fn(fns[0], [E.Bytes(dict(enumerate(data)), exact=len(data))])
+                n += 1
+                if not (isinstance(r, E.Adt) and r.name == "Option"):
+                    raise E.Unsupported("result outside the model: %r" % (r,))
+                ok = len(seen) == 1 and isinstance(seen[0][0], E.Bytes) and [seen[0][0].known.get(i_) for i_ in range(len(first))] == first and r.variant == (1 if first_parses else 0)
+                if not ok and bad2 is None:
+                    bad2 = ([("%d%s" % (t, "+ext" if e else "")) for (t, pl), e in pre], first_parses, r.variant, len(seen))
     except E.Unsupported as ex:
         run.bad(rule, "AV1 sequence header position", "cannot tabulate extract_av1_config (fail closed): %s" % ex)
         return
     run.check(bad is None, rule, "AV1 sequence header position", "found after any leading temporal-delimiter / metadata / padding / tile-list OBUs; None iff absent (%d units)" % n,
               "" if bad is None else "temporal unit with leading OBU types %s %s a sequence header: extract_av1_config returns %s and hands the parser %s" % (
                   bad[0], "and" if bad[1] else "without", "Some" if bad[2] else "None", bad[3] or "nothing"), mir.loc_of(u.bodies[fns[0]]))
-    run.floor(rule, n, 80, "temporal units evaluated")
+    run.check(bad2 is None, rule, "AV1 first sequence header wins", "of two sequence headers in a unit the first is the one parsed and stored; when the parser refuses it the unit is refused",
+              "" if bad2 is None else "unit with leading OBU types %s and two sequence headers, the first of which %s: extract_av1_config returns %s after %d parser call(s) - the stream's first sequence header is not the configuration source" % (
+                  bad2[0], "parses" if bad2[1] else "is refused by the parser", "Some" if bad2[2] else "None", bad2[3]), mir.loc_of(u.bodies[fns[0]]))
+    run.floor(rule, n, 120, "temporal units evaluated")
 
+
+
+# ---- R17: the records carry the stored parameter sets themselves -------------------------------------------------------------------
+_IDENTITY_VIEWS = ("as_slice", "clone", "to_vec", "as_ref", "deref", "to_owned", "borrow", "as_deref")
+
+
+def _pure_field_path(e):
+    """the field name a byte blob is taken from when it is nothing but a place of the configuration (field / enum payload / parameter
+    chains, through identity views such as as_slice / clone); None when anything computes the bytes"""
+    last = None
+    while isinstance(e, tuple) and e:
+        if e[0] == "field":
+            last = last or e[2]
+            e = e[1]
+        elif e[0] == "payload":
+            e = e[1]
+        elif e[0] == "mcall" and str(e[1]).split("::")[-1] in _IDENTITY_VIEWS:
+            e = e[2]
+        elif e[0] in ("ref", "deref") and len(e) == 2:
+            e = e[1]
+        elif e[0] == "param":
+            return last
+        else:
+            return None
+    return None
+
+
+def paramsets_written_verbatim(prog, run, rule):
+    from . import c19
+    u = prog.lib
+    it = L.Interp(u)
+    n = 0
+    for r in c19.roots(u, it):
+        try:
+            segs = L.norm_segs(it.production(r))
+        except L.Unanalysable as e:
+            run.bad(rule, "unanalysable %s" % r, "layout interpreter cannot derive this producer (fail closed): %s" % e)
+            continue
+        for (path, box, cond) in B.walk_boxes(segs):
+            fc = path[-1]
+            if fc not in (b"avcC", b"hvcC"):
+                continue
+            n += 1
+            key = "%s %s" % (r.split("::")[-1], B.fc_str(fc))
+            tail = c19._after(box[2], 6 if fc == b"avcC" else 23)
+            flat = []
+            for sg in tail or []:
+                if sg[0] == "alt" and not sg[3]:
+                    flat += list(sg[2])
+                else:
+                    flat.append(sg)
+            blobs = [sg for sg in flat if sg[0] not in ("c", "be")]
+            names = [_pure_field_path(sg[1]) if sg[0] == "blob" else None for sg in blobs]
+            want = ["sps", "pps"] if fc == b"avcC" else ["vps", "sps", "pps"]
+            good = tail is not None and None not in names and names == want[-len(names):] and len(names) >= 2
+            run.check(good, rule, key, "NAL blobs are the configuration's %s fields themselves" % "/".join(names if good else want),
+                      "the %s record does not carry the stored parameter sets verbatim: its variable part is %s (expected the configuration's %s fields, untransformed)" % (
+                          B.fc_str(fc), ", ".join(L.show(sg)[:90] for sg in blobs)[:300] or "not derivable", "/".join(want)))
+    run.floor(rule, n, 4, "avcC / hvcC productions")
 
 
 # ---- R13: which NAL unit goes into which parameter-set slot ------------------------------------------------------------------------
